@@ -30,6 +30,10 @@ PROP = {  # commit subject prefix -> (property, what failed)
     "fix: a user class called Union is rendered by its name": ("C15", "'class Union(def x: Int)' ... 'Union(1)' was emitted as '1'; as a parent it panicked ('Expected type in parent')"),
     "fix: names in a user import are reproduced verbatim": ("C16", "'from typing import List' was emitted as 'from typing import list'"),
     "fix: class members whose positions coincide": ("C12", "a class with a method standing two places before a field was emitted with members in HashMap order: 182 of 410 programs gave 2-4 different outputs over 14 seeds, on 16 threads and across processes"),
+    "fix: cyclic inheritance is reported": ("C03", "'class A: A', 'class A: B / class B: A' and every other cyclic parent graph (2 947 of 3 708 graph x use inputs) aborted the process with a stack overflow"),
+    "fix: defining an empty tuple of identifiers": ("C03", "'def () := 3' panicked: cannot have empty identifier"),
+    "fix: a context error in a single-file run names the file": ("C19", "context errors (duplicate parent, argument without type, cyclic inheritance, alias mismatch) were rendered as '──→ <unknown>:1:16' without quoted line, also for a single input file"),
+    "fix: a diagnostic without a real position names only the file": ("C19", "'class (): (K)' reported '──→ src/f.mamba:0:0'"),
 }
 def main():
     data = json.load(open(P)) if os.path.exists(P) else {"findings": []}
